@@ -225,9 +225,11 @@ class Gen:
             p, u = rng.choice(NS)
             self.emit(["AddNs", c, p, u])
         else:
+            # usage discipline of C03 (inherited by every property): a scope's default
+            # namespace, once set or adopted, is not re-bound to another URI
             cont = self.im.cont(c)
             cur = cont._namespaces._default
-            u = cur.uri if (cur is not None and rng.random() < 0.9) else rng.choice(DEFAULTS)
+            u = cur.uri if cur is not None else rng.choice(DEFAULTS)
             self.emit(["SetDefault", c, u])
 
     def op_new_bundle(self):
